@@ -461,3 +461,89 @@ compare.on_yield_value = _on_yield
 compare.loop_entry_hooks = {1: _fetch_loop_entry}
 
 REG = {('Msg', 'get_flags'): _opaque_any('FSetV')}
+
+
+# ---- SynchronizedMessages.get_uids / get_all : sequence-set addressing (C10)
+
+SeqSetS = RecS('SequenceSet', uid=BOOL)
+_den = {}
+
+
+def den(rid):
+    """ghost: den_rid(max, x) <=> the sequence set object denotes x when `*` = max.  SequenceSet.flatten
+    is used through this contract (proved element-wise for _get_range in contracts/seqset.py; the union over
+    the elements is checked by the bounded run)."""
+    if rid not in _den:
+        _den[rid] = z3.Function(f'den_{rid}', z3.IntSort(), z3.IntSort(), z3.BoolSort())
+    return _den[rid]
+
+
+def _flatten_model(ex, frame, e, base):
+    args, kw = ex.eval_args(e, frame)
+    mx = args[0]
+    r = SetS(INT).fresh('flat')
+    x = z3.Int(fresh_name('x'))
+    ex.assume(z3.ForAll([x], r.arr[x] == den(base.rid)(mx.t, x)))
+    r.frozen = True
+    return r
+
+
+def _addr_post(with_msg):
+    def selected(s, seq, uid):
+        m = s.self
+        d = den(unview_rid(s.seq_set))
+        mx_uid = ite(m._sorted.len > 0, m._sorted[m._sorted.len - 1], VInt(0))
+        return ite(s.seq_set.uid, VBool(d(_t(mx_uid), _t(uid))), VBool(d(_t(m._sorted.len), _t(seq))))
+
+    def second(s, j):
+        el = s.result[j]
+        return el[1]
+
+    def p1(s):
+        m = s.self
+        return forall(lambda j: implies(
+            (j >= 0) & (j < s.result.len),
+            (s.result[j][0] >= 1) & (s.result[j][0] <= m._sorted.len) &
+            ((s.result[j][1] == m._cache[m._sorted[s.result[j][0] - 1]]) if with_msg else
+             (s.result[j][1] == m._sorted[s.result[j][0] - 1])) &
+            selected(s, s.result[j][0], m._sorted[s.result[j][0] - 1])))
+
+    def p2(s):
+        return forall(lambda i, j: implies((i >= 0) & (i < j) & (j < s.result.len),
+                                           s.result[i][0] < s.result[j][0]), n=2)
+
+    def p3(s):
+        m = s.self
+        comp = getattr(s.result, 'comp', None)
+        if comp is not None:
+            # symbolic run: the comprehension's ghost inverse-index function is the witness
+            src, inv, seq = comp
+            wit = lambda q: VInt(inv(_t(q) - 1))
+            return forall(lambda q: implies(
+                (q >= 1) & (q <= m._sorted.len) & selected(s, q, m._sorted[q - 1]),
+                (wit(q) >= 0) & (wit(q) < s.result.len) & (s.result[wit(q)][0] == q)))
+        return forall(lambda q: implies(
+            (q >= 1) & (q <= m._sorted.len) & selected(s, q, m._sorted[q - 1]),
+            exists(lambda j: (j >= 0) & (j < s.result.len) & (s.result[j][0] == q))))
+    return [('every_result_is_addressed_and_labelled_with_its_rank', p1),
+            ('ascending_sequence_numbers', p2), ('every_addressed_message_is_returned', p3)]
+
+
+def unview_rid(v):
+    return v._rec.rid
+
+
+_addr_requires = sm_clauses(lambda s: s.self) + [
+    ('S8_count', lambda s: card_is(s.self._uids, s.self._sorted.len))]
+
+get_uids = Contract(
+    'C10', F, 'SynchronizedMessages.get_uids', params=dict(self=SM, seq_set=SeqSetS),
+    requires=_addr_requires, ensures=_addr_post(False),
+    calls={}, modifies=[], raises_only=(), returns=ListS(TupleS(INT, INT)), pure=True)
+
+get_all = Contract(
+    'C10', F, 'SynchronizedMessages.get_all', params=dict(self=SM, seq_set=SeqSetS),
+    requires=_addr_requires, ensures=_addr_post(True),
+    calls={}, modifies=[], raises_only=(), returns=ListS(TupleS(INT, Msg)), pure=True)
+
+REG[('SequenceSet', 'flatten')] = _flatten_model
